@@ -152,10 +152,18 @@ theorem parseIncludedFiles_readOnly {ss : List Ast.Stmt} {c b c'}
   | nil => simp [parseIncludedFiles] at h; exact h.2
   | cons s rest ih =>
     cases s <;> simp only [parseIncludedFiles] at h <;> try exact ih h
-    simp only [bind_ok, unwrap_ok, pure_ok] at h
-    obtain ⟨_, _, ⟨_, _, h0⟩, _, _, ⟨_, _, h1⟩, r, c3, h2, h3⟩ := h
-    cases h0; cases h1; cases h3
-    exact ih h2
+    rename_i _ file
+    cases file with
+    | none => exact ih h
+    | some f =>
+      simp only at h
+      cases hfp : f.toString? with
+      | none => simp only [hfp] at h; exact ih h
+      | some fp =>
+        simp only [hfp, bind_ok, pure_ok] at h
+        obtain ⟨r, c3, h2, h3⟩ := h
+        cases h3
+        exact ih h2
 
 /-- the include scan of a prefix succeeds with `false` if the scan of the whole does -/
 theorem parseIncludedFiles_prefix {p q : List Ast.Stmt} {c c'}
@@ -164,13 +172,20 @@ theorem parseIncludedFiles_prefix {p q : List Ast.Stmt} {c c'}
   | nil => rfl
   | cons s rest ih =>
     cases s <;> simp only [List.cons_append, parseIncludedFiles] at h ⊢ <;> try exact ih h
-    simp only [bind_ok, unwrap_ok, pure_ok] at h ⊢
-    obtain ⟨f, _, ⟨_, rfl, h0⟩, fp, _, ⟨_, hfp, h1⟩, r, c3, h2, h3⟩ := h
-    cases h0; cases h1
-    simp only [Prod.mk.injEq, Bool.false_eq, Bool.or_eq_false_iff] at h3
-    obtain ⟨⟨h4, rfl⟩, rfl⟩ := h3
-    have h5 := ih h2
-    exact ⟨f, c, ⟨f, rfl, rfl⟩, fp, c, ⟨fp, hfp, rfl⟩, false, c, h5, by simp [h4]⟩
+    rename_i _ file
+    cases file with
+    | none => exact ih h
+    | some f =>
+      simp only at h ⊢
+      cases hfp : f.toString? with
+      | none => simp only [hfp] at h ⊢; exact ih h
+      | some fp =>
+        simp only [hfp, bind_ok, pure_ok] at h ⊢
+        obtain ⟨r, c3, h2, h3⟩ := h
+        simp only [Prod.mk.injEq, Bool.false_eq, Bool.or_eq_false_iff] at h3
+        obtain ⟨⟨h4, rfl⟩, rfl⟩ := h3
+        have h5 := ih h2
+        exact ⟨false, c, h5, by simp [h4]⟩
 
 /-- **prefix stability** of `analyze_source` (single file): if the analysis of `p ++ q` returns
 normally, so does the analysis of `p` (same fuel), and its statements, symbols and diagnostics
